@@ -24,8 +24,12 @@ RULES = {
     "ExternalTensor guard)",
     "R5": "running offset: the position of the next tensor is advanced from the aligned offset of the current one "
     "plus its length, never from the pre-alignment value",
+    "R6": "option forwarding: when a function of the external-data save path calls a package function that has an "
+    "optional parameter of the same name as one of its own parameters (alignment, align_threshold, size threshold, shard "
+    "limit, callback, worker counts ...), the call binds it - otherwise the callee silently runs with its default and the "
+    "two stages disagree about the on-disk layout (planner vs writer)",
 }
-FLOORS = {"R1": 4, "R2": 4, "R3": 20, "R4": 1, "R5": 3}
+FLOORS = {"R1": 4, "R2": 4, "R3": 20, "R4": 1, "R5": 3, "R6": 25}
 EXPLANATION = (
     "Class-qualified effect summaries of the try bodies and finally blocks of the two save entry points; data-flow "
     "checks on the initializer collection loops and on the offset accumulators; table agreement between the "
@@ -294,6 +298,50 @@ def rule_r5(ctx):
               how="return expressions: identity or ceil-to-multiple")
 
 
+# (caller, callee) pairs that deliberately leave same-named options at their defaults - one reason each
+FORWARD_EXEMPT = {
+    ("onnx_ir._safetensors:save_safetensors", "onnx_ir._io:save"):
+        "second stage: the tensors were already written to the safetensors file by _save_file; save() then writes the "
+        "model proto only (external_data is not passed, so the size/shard/callback options are inert)",
+}
+
+
+def rule_r6(ctx):
+    ty = ctx.typer
+    n = 0
+    for mn in ("onnx_ir.external_data", "onnx_ir._io", "onnx_ir._safetensors"):
+        for f in ctx.repo.modules[mn].all_funcs:
+            fp = set(f.params)
+            for c in calls_in(f):
+                if any(k.arg is None for k in c.keywords) or any(isinstance(a, ast.Starred) for a in c.args):
+                    continue
+                hits, _ = ty.callees(f, c, False)
+                for g in hits:
+                    if not g.key.startswith("onnx_ir") or isinstance(g.node, ast.Lambda):
+                        continue
+                    a = g.node.args
+                    pos = a.posonlyargs + a.args
+                    optional = [p.arg for p, d in zip(reversed(pos), reversed(a.defaults))] + [p.arg for p, d in zip(a.kwonlyargs, a.kw_defaults) if d is not None]
+                    names = [x.arg for x in pos]
+                    off = 1 if g.cls is not None and names and names[0] in ("self", "cls") and isinstance(c.func, ast.Attribute) else 0
+                    bound = {k.arg for k in c.keywords if k.arg} | {names[i + off] for i in range(len(c.args)) if i + off < len(names)}
+                    for p in optional:
+                        if p not in fp:
+                            continue
+                        n += 1
+                        why = FORWARD_EXEMPT.get((f.key, g.key))
+                        if why and p not in bound:
+                            ctx.ob("R6", f"{f.local} → {g.local}: `{p}` deliberately not forwarded", True, nontrivial=False, how=f"exempt: {why}")
+                            continue
+                        ctx.check("R6", f"{f.local} → {g.local}: option `{p}` is forwarded", p in bound, f, c,
+                                  f"{f.local} takes `{p}` but calls {g.local} without it: the callee runs with its default for `{p}` while the "
+                                  "rest of the save path uses the caller's value, so the two disagree (e.g. the shard planner estimates "
+                                  "padding with one threshold and the writer pads with another: shards exceed the limit)",
+                                  how="same-named optional parameter of the callee is bound at the call site", nontrivial=False,
+                                  construct=f"{g.local}({p}) not forwarded")
+    ctx.require(n >= 25, f"only {n} same-named option bindings examined")
+
+
 def run(ctx):
     ef = ctx._shared.get("effects")
     if ef is None:
@@ -302,6 +350,7 @@ def run(ctx):
     rule_r1(ctx, ef)
     rule_r2(ctx)
     rule_r3(ctx)
+    rule_r6(ctx)
     # R4: reuse C04's packing-factor rule (needs the bit-width table)
     d = c04._dict_literal(ctx, c04.EN, "_BITWIDTH_MAP")
     ctx._shared["bw"] = {c04._dt(k): v.value for k, v in zip(d.keys, d.values) if c04._dt(k)}
